@@ -206,7 +206,7 @@ def csv_roundtrip(df, lay, info):
     # the index is written only when it carries a dimension; leftover row numbers are not data
     keep_index = bool(info.get("indexed"))
     text = df.to_csv(index=keep_index)
-    back = pd.read_csv(io.StringIO(text))
+    back = pd.read_csv(io.StringIO(text), float_precision="round_trip")   # pandas' default float parser may be off by one ulp
     return back
 
 
@@ -246,6 +246,24 @@ def run_case(spec, lines, out):
         except Exception:
             same = False
         emit("note infinite_value_round_trip", "ok" if same else "CHANGED")
+    if spec["id"] % 10 == 0:
+        # an array without dimensions: data with an empty value, or with two rows for its one entry, is refused
+        # under the default flags, and a refused set_values_from_df leaves the array as it was (harness-level)
+        verdict = "ok"
+        for frame in (pd.DataFrame({"value": [np.nan]}), pd.DataFrame({"value": [1.0, 2.0]})):
+            try:
+                FlodymArray.from_df(DimensionSet(dim_list=[]), frame)
+                verdict = "ACCEPTED"
+            except Exception:
+                pass
+            z = FlodymArray(dims=DimensionSet(dim_list=[]), values=np.array(7.0))
+            try:
+                z.set_values_from_df(frame)
+                verdict = "ACCEPTED"
+            except Exception:
+                if not (isinstance(z.values, np.ndarray) and z.values.shape == () and float(z.values) == 7.0):
+                    verdict = "ALTERED"
+        emit("note zero_dim_import_refuses_faulty_data", verdict)
     nxt = 301
     for op in spec["ops"]:
         if op["op"] == "todf":
@@ -285,6 +303,8 @@ def run_case(spec, lines, out):
             if lay.get("csv"):
                 df = csv_roundtrip(df, lay, info)
             via = lay.get("via") if (lay.get("index") == "none" and not lay.get("csv") and op.get("target") != "existing") else None
+            if via == "xlsxreader" and np.any((np.abs(arr.values) < 1e-6) & (arr.values != 0)):
+                via = "csvreader"        # a sheet keeps 15-16 significant digits: 2^-30 does not survive it exactly
             reader = None
             if via:
                 # through the parameter readers: the file is written here, read by the reader; the model
@@ -296,8 +316,9 @@ def run_case(spec, lines, out):
                 if via == "csvreader":
                     path = os.path.join(tmpd, "p.csv")
                     df.to_csv(path, index=False)
-                    df = pd.read_csv(path)
-                    reader = CSVParameterReader({"p": path}, allow_missing_values=bool(op["miss"]), allow_extra_values=bool(op["extra"]))
+                    df = pd.read_csv(path, float_precision="round_trip")
+                    reader = CSVParameterReader({"p": path}, allow_missing_values=bool(op["miss"]), allow_extra_values=bool(op["extra"]),
+                                                float_precision="round_trip")
                 else:
                     path = os.path.join(tmpd, "p.xlsx")
                     df.to_excel(path, index=False)
